@@ -21,6 +21,8 @@ def py_expr(n):
 		raise Unsupported('constant')
 	if isinstance(n, ast.UnaryOp):
 		return ('un', PY_UN[type(n.op)], py_expr(n.operand))
+	if isinstance(n, ast.BinOp) and isinstance(n.op, ast.Mult) and isinstance(n.left, ast.List) and len(n.left.elts) == 1:
+		return ('listfill', py_expr(n.left.elts[0]), py_expr(n.right))
 	if isinstance(n, ast.BinOp):
 		if type(n.op) not in PY_BIN:
 			raise Unsupported('binary operator')
@@ -211,6 +213,15 @@ class CppParser:
 			self.eat('(')
 			self.eat(')')
 			return ('iife', body)
+		if t == 'std::vector' and self.peek(1) == '<':
+			# std::vector<int>(count, value)
+			self.type()
+			self.eat('(')
+			count = self.expr()
+			self.eat(',')
+			value = self.expr()
+			self.eat(')')
+			return ('listfill', value, count)
 		if t == 'std::find':
 			# (std::find(X.begin(), X.end(), e) != X.end()) -> e in X
 			self.eat()
@@ -377,6 +388,10 @@ class CppParser:
 			if self.peek() == ';':
 				self.eat()
 				return ('decl', typ, name, ('listlit', []))
+			if self.peek() == '{':
+				e = self.init_list()
+				self.eat(';')
+				return ('decl', typ, name, e)
 			self.eat('=')
 			e = self.init_list() if self.peek() == '{' else self.expr()
 			self.eat(';')
